@@ -180,5 +180,21 @@ def execute(ctx, case):
     pw = pointwise_cm(labels.reshape(sshape), sv.reshape(sshape), th, score_class=sc, equal_class=ec)
     C(pw.shape == sshape + np.shape(th) + (2, 2) and pw.dtype == bool, "pointwise_cm shape is not scores.shape+threshold.shape+(2,2)", "hist-pw-shape", got=pw.shape, thr_shape=np.shape(th), scores_shape=sshape)
     C(np.array_equal(labels, l0) and np.array_equal(sv, s0) and (not isinstance(th, np.ndarray) or np.array_equal(th, th0)), "pointwise_cm mutated an argument", "hist-pw-args")
+    # ConfusionMatrix queries (binary, from cm(); and a multiclass one): judged by M-state, repeated queries identical
+    from score_analysis import ConfusionMatrix
+
+    cmx = s.cm(rand_input("thr"))
+    K = int(rng.integers(2, 5))
+    mc = ConfusionMatrix(matrix=rng.integers(0, 7, (int(rng.integers(1, 3)), K, K)))
+    for obj, names in ((cmx, ["tpr", "fnr", "ppv", "accuracy", "tpr_ci", "pop", "topr"]), (mc, ["tpr", "ppv", "class_accuracy", "fnr_ci", "accuracy", "one_vs_all", "tp"])):
+        m0 = np.array(obj.matrix, copy=True)
+        first = {}
+        for _ in range(2):
+            for nm in names:
+                r = getattr(obj, nm)()
+                if nm in first:
+                    C(_equal(first[nm], r), "a repeated ConfusionMatrix query returned a different result", "hist-repeat-cm", method=nm)
+                first[nm] = r
+        C(np.array_equal(obj.matrix, m0), "ConfusionMatrix queries changed the matrix", "hist-cm-matrix")
     sess.sig_counts[("case",) + sig] += 1
     return True
